@@ -214,7 +214,7 @@ MUTANTS = [
   "edits": [(SVC, "                .is_some_and(Addr::stopped)", "                .is_some_and(Addr::running)")]},
  {"name": "svc_try_from_registry_no_liveness_filter", "why": "try_from_registry hands out a terminated instance", "expect": {"props": ["C08"], "obligation": "try_from_registry.only-live-registered"},
   "edits": [(SVC, "            .filter(|addr| addr.running())\n", "")]},
- {"name": "svc_check_then_act_two_locks", "why": "from_registry checks under a read lock, then spawns and inserts under a separately acquired write lock: two racing callers both spawn", "expect": {"props": ["C08"], "obligation": "lock.one-section-per-operation"},
+ {"name": "svc_check_then_act_two_locks", "why": "from_registry checks under a read lock, then spawns and inserts under a separately acquired write lock: two racing callers both spawn", "expect": {"props": ["C08"], "obligation": "from_registry.live-instance-returned-nothing-spawned"},
   "edits": [(SVC, """            let mut registry = REGISTRY.write().await; // this is the only reason for the async block
 
             if let Some(addr) = registry
